@@ -48,7 +48,7 @@ func sameList(L *LState, base int, want []LValue) bool {
 
 // C14.strlib — string.find/match/gmatch/gsub deliver lstrlib's results (positions, captures, init clamping, replacement assembly).
 //
-//verif:harness prop=C14,C15 tier=quick qparams=slen:2 tparams=slen:3 bounds="12 patterns x subjects of <= slen symbolic bytes x init any 32-bit integer; gsub with 4 replacement strings and a number, with and without a maximum count in -1..3, function and table replacements returning a string / false / nil"
+//verif:harness prop=C14,C15 tier=quick qparams=slen:2 tparams=slen:3 bounds="12 patterns x subjects of <= slen symbolic bytes x init any 32-bit integer; gsub with 4 replacement strings and a number, with and without a maximum count in -1..3, function and table replacements returning a string / false / nil / a number / true / a table"
 func H_C14_strlib() {
 	L := newL(Options{}, BaseLibName, StringLibName)
 	pat := c14LibPatterns[VChoice(len(c14LibPatterns))]
@@ -59,7 +59,7 @@ func H_C14_strlib() {
 	switch VChoice(5) {
 	case 4: // gsub with function and table replacements: false/nil keep the match, strings replace it
 		mode := VChoice(2)
-		retKind := VChoice(3) // what the callback returns / the table holds: string, false, nil
+		retKind := VChoice(6) // what the callback returns / the table holds: string, false, nil, number, true, table
 		ref, _ := pm.RefFindAll(pat, []byte(src))
 		L.Push(L.GetField(strlib, "gsub"))
 		L.Push(LString(src))
@@ -79,6 +79,12 @@ func H_C14_strlib() {
 					L.Push(LString("<R>"))
 				case 1:
 					L.Push(LFalse)
+				case 3:
+					L.Push(LNumber(42))
+				case 4:
+					L.Push(LTrue)
+				case 5:
+					L.Push(L.NewTable())
 				default:
 					L.Push(LNil)
 				}
@@ -95,6 +101,12 @@ func H_C14_strlib() {
 					L.Push(LString("<R>"))
 				case 1:
 					L.Push(LFalse)
+				case 3:
+					L.Push(LNumber(42))
+				case 4:
+					L.Push(LTrue)
+				case 5:
+					L.Push(L.NewTable())
 				default:
 					L.Push(LNil)
 				}
@@ -104,6 +116,16 @@ func H_C14_strlib() {
 			L.Push(tb)
 		}
 		err := L.PCall(3, 2, nil)
+		if retKind >= 4 {
+			// true, a table, ...: neither "keep the match" nor a string (lstrlib add_value: invalid replacement value)
+			if len(ref) > 0 {
+				VAssert(err != nil, "gsub(fn/table): a replacement value that is neither false/nil nor a string or number is an error: "+pat)
+			} else {
+				VAssert(err == nil, "gsub(fn/table): no match, no error: "+pat)
+			}
+			VReach("end")
+			return
+		}
 		VAssert(err == nil, "gsub(fn/table): no error: "+pat)
 		want := ""
 		pos := 0
@@ -111,6 +133,8 @@ func H_C14_strlib() {
 			want += src[pos:m.Start]
 			if retKind == 0 {
 				want += "<R>"
+			} else if retKind == 3 {
+				want += "42"
 			} else {
 				want += src[m.Start:m.End] // false or nil: the original match is kept
 			}
